@@ -36,8 +36,7 @@ func VerifC16_ClientGraffiti() {
 	tmpl := templates[vnd.Choose("template", len(templates))]
 	var graffiti [32]byte
 	copy(graffiti[:], tmpl)
-	s := &Service{clientMonitor: vstub.ClientMonitor{}, timeout: time.Second, chainTime: vstub.NewChainTime(0),
-		proposalProviders: map[string]eth2client.ProposalProvider{"node-a": node}}
+	s := c07New(time.Second, vstub.NewChainTime(0), map[string]eth2client.ProposalProvider{"node-a": node}, "C16.new.accepted")
 	_, err := s.Proposal(context.Background(), &api.ProposalOpts{Slot: 5, Graffiti: graffiti})
 	vnd.Quiesce()
 	vnd.Cover("C16.graffiti.survived")
